@@ -304,12 +304,13 @@ def run(tier, seed):
         commute, words = verd[idx][2], verd[idx][3]
         # the flipped answer must be rejected whenever the flip contradicts the spec: F->T on a non-commuting pair,
         # any flip on a Pauli-word pair; other flips (T->F on non-words = conservative) are legitimately accepted
-        must_reject = (orig == "F" and not commute) or bool(words)
+        # (a control derived from a record that is itself rejected proves nothing: flipping a wrong answer makes it right)
+        must_reject = ((orig == "F" and not commute) or bool(words)) and verd[k][0].startswith("ok")
         if must_reject:
             if cab.startswith("ok"):
                 raise lib.MachineryError(f"negative control accepted: case {k} flipped {orig} -> verdict {cab}")
             nneg += 1
-    if nneg == 0:
+    if nneg == 0 and not viol:
         raise lib.MachineryError("no negative control was exercised")
     if n_true == 0 or n_words == 0 or n_commute == 0:
         raise lib.MachineryError("vacuous run: no True answers / no Pauli-word pairs / no commuting pairs")
